@@ -22,8 +22,9 @@ type Profile struct {
 	GroupBias      int // of 10: how often a select is a grouping select
 	MaxDepth       int // nesting of subqueries
 	AllowErrors    bool
-	AliasShapes    bool // grouping select lists without aliases / with repeated aliases / aliases equal to generated names
-	AllowTripleMap bool // three columns of one name in a non-grouping select (finding class TripleClass on a tree without the fix)
+	AliasShapes    bool   // grouping select lists without aliases / with repeated aliases / aliases equal to generated names
+	AllowTripleMap bool   // three columns of one name in a non-grouping select (finding class TripleClass on a tree without the fix)
+	KeyClass       string // finding class of cases in which a selected column of a grouping select is called key_<i> for an unselected key i (on a tree without that fix)
 	TripleClass    string
 	Floats         bool // JSON number columns (Float)
 	AllowTriple    bool // ... including three columns of one name (finding class c03-triple-name on the tree without the fix)
@@ -67,10 +68,11 @@ type Gen struct {
 	ctes   []cteInfo
 	nalias int
 	// set while generating
-	MainOut    []Field  // output columns of the main query
-	Triggers   []*Query // selects carrying a TRIGGER clause
-	TripleName bool     // some grouping select has three columns of one name
-	Shapes     map[string]int
+	MainOut      []Field  // output columns of the main query
+	Triggers     []*Query // selects carrying a TRIGGER clause
+	TripleName   bool     // some grouping select has three columns of one name
+	KeyNameClash bool     // a selected column of a grouping select has the default name of an unselected key
+	Shapes       map[string]int
 }
 
 func (g *Gen) shape(k string) {
@@ -781,6 +783,26 @@ func (g *Gen) nameGroupingItems(items []Item, keys []Expr) ([]string, []bool) {
 	un := uniqueNamer{}
 	names := make([]string, n)
 	noref := make([]bool, n)
+	defer func() {
+		// the default name key_<j> of a key that is not selected must not be the name of a selected column
+		for j, k := range keys {
+			selected := false
+			for _, it := range items {
+				if it.Agg == "" && !it.Star && it.E.Coq() == k.Coq() {
+					selected = true
+				}
+			}
+			if selected {
+				continue
+			}
+			for _, nm := range names {
+				if nm == fmt.Sprintf("key_%d", j) {
+					g.KeyNameClash = true
+					g.shape("selected column named like an unselected key")
+				}
+			}
+		}
+	}()
 	for i := range items {
 		names[i] = un.get(base[i])
 
